@@ -45,7 +45,17 @@ func combSkelTags(recv string, nodes ...ast.Node) string {
 				case "Next", "Peek", "Close":
 					b.WriteString("<" + se.Sel.Name + ">")
 				default:
-					if id, ok := se.X.(*ast.Ident); ok && recv != "" && id.Name == recv {
+					// a call through a field of the receiver, directly (iter.keep(..)) or through a chain of
+					// its fields (iter.parent.same(..)): a user callback
+					root := se.X
+					for {
+						if inner, ok := root.(*ast.SelectorExpr); ok {
+							root = inner.X
+							continue
+						}
+						break
+					}
+					if id, ok := root.(*ast.Ident); ok && recv != "" && id.Name == recv {
 						b.WriteString("<cb>")
 					}
 				}
@@ -367,6 +377,106 @@ func combDeferFirst(call string) func(c *Ctx, s *Site) (string, error) {
 // skeleton of a method that is outside the "no goroutine, no channel" count (Chan)
 func combSkeletonSite(mod, pkg, fn, name string) Site {
 	return Site{Module: mod, Pkg: pkg, Func: fn, Name: name, Kind: Custom, Custom: combSkeleton}
+}
+
+// combExprSite translates a selected Boolean / value expression that mentions user callbacks or values of
+// the (generic) element type into a polymorphic Lean definition: `sig` is the Lean binder list and result
+// type, `vars` maps Go expression text to Lean terms, `callees` maps callee text to the Lean parameter
+// that stands for it. Accepted: mapped expressions, `!`, `&&`, `||`, `==`, `!=`, `<`, `>`, `<=`, `>=`,
+// integer literals, calls of mapped callees.
+func combExprSite(mod, pkg, fn, name, sel, sig string, vars, callees map[string]string) Site {
+	return Site{Module: mod, Pkg: pkg, Func: fn, Name: name, Kind: Custom, Sel: sel,
+		Custom: func(c *Ctx, s *Site) (string, error) {
+			fd, err := c.FindFunc(pkg, fn)
+			if err != nil {
+				return "", err
+			}
+			n, err := c.SelectPath(fd, sel)
+			if err != nil {
+				return "", err
+			}
+			x, ok := n.(ast.Expr)
+			if !ok {
+				return "", fmt.Errorf("selector %q is not an expression", sel)
+			}
+			var tr func(e ast.Expr) (string, error)
+			tr = func(e ast.Expr) (string, error) {
+				txt := c.Text(e)
+				if v, ok := vars[txt]; ok {
+					return v, nil
+				}
+				switch n := e.(type) {
+				case *ast.ParenExpr:
+					return tr(n.X)
+				case *ast.BasicLit:
+					if n.Kind == token.INT {
+						return "(" + n.Value + " : Int)", nil
+					}
+				case *ast.Ident:
+					if n.Name == "true" || n.Name == "false" {
+						return n.Name, nil
+					}
+					return "", fmt.Errorf("unmapped identifier %q", n.Name)
+				case *ast.UnaryExpr:
+					a, err := tr(n.X)
+					if err != nil {
+						return "", err
+					}
+					if n.Op == token.NOT {
+						return "(!" + a + ")", nil
+					}
+				case *ast.BinaryExpr:
+					a, err := tr(n.X)
+					if err != nil {
+						return "", err
+					}
+					b, err := tr(n.Y)
+					if err != nil {
+						return "", err
+					}
+					switch n.Op {
+					case token.LAND:
+						return "(" + a + " && " + b + ")", nil
+					case token.LOR:
+						return "(" + a + " || " + b + ")", nil
+					case token.EQL:
+						return "(" + a + " == " + b + ")", nil
+					case token.NEQ:
+						return "(" + a + " != " + b + ")", nil
+					case token.LSS:
+						return "(decide (" + a + " < " + b + "))", nil
+					case token.GTR:
+						return "(decide (" + a + " > " + b + "))", nil
+					case token.LEQ:
+						return "(decide (" + a + " ≤ " + b + "))", nil
+					case token.GEQ:
+						return "(decide (" + a + " ≥ " + b + "))", nil
+					case token.ADD, token.SUB:
+						return "(" + a + " " + n.Op.String() + " " + b + ")", nil
+					}
+				case *ast.CallExpr:
+					lean, ok := callees[c.Text(n.Fun)]
+					if !ok {
+						return "", fmt.Errorf("unexpected callee %s", c.Text(n.Fun))
+					}
+					out := "(" + lean
+					for _, a := range n.Args {
+						t, err := tr(a)
+						if err != nil {
+							return "", err
+						}
+						out += " " + t
+					}
+					return out + ")", nil
+				}
+				return "", fmt.Errorf("unsupported expression %s", txt)
+			}
+			t, err := tr(x)
+			if err != nil {
+				return "", err
+			}
+			return fmt.Sprintf("/-- `%s` in `%s` (%s) -/\ndef %s %s := %s\n", c.Pretty(x), fn, sel, name, sig, t), nil
+		}}
 }
 
 func init() {
@@ -693,6 +803,43 @@ func init() {
 		ex("xmath/xrand", "rSampleStream", "sampleErrGuard", "if[1].cond", "Bool", I("e"), errVars),
 		ex("xmath/xrand", "rSampleStream", "sampleErrRet", "return[0].result[1]", "Int", I("e"), errVars),
 		ex("xmath/xrand", "rSampleStream", "sampleRet", "return[1].result[1]", "Int", I("e"), errVars),
+
+		// ---------------------------------------------------------------- value-level expressions (C07-B2): callback
+		// argument order and polarity, the tests of One / Equal, loop conditions, slice bounds
+		combExprSite(mod, it, "compactIterator.Next", "itCompactKeeps", "if[2].cond", "{α : Type _} (eq : α → α → Bool) (prev item : α) : Bool",
+			map[string]string{"iter.prev": "prev", "item": "item"}, map[string]string{"iter.eq": "eq"}),
+		combExprSite(mod, st, "compactStream.Next", "stCompactKeeps", "if[2].cond", "{α : Type _} (eq : α → α → Bool) (prev item : α) : Bool",
+			map[string]string{"s.prev": "prev", "item": "item"}, map[string]string{"s.eq": "eq"}),
+		combExprSite(mod, it, "filterIterator.Next", "itFilterKeeps", "if[1].cond", "{α : Type _} (keep : α → Bool) (item : α) : Bool",
+			map[string]string{"item": "item"}, map[string]string{"iter.keep": "keep"}),
+		combExprSite(mod, st, "filterStream.Next", "stFilterKeeps", "if[2].cond", "(ok : Bool) : Bool", map[string]string{"ok": "ok"}, nil),
+		combExprSite(mod, it, "whileIterator.Next", "itWhileStops", "if[2].cond", "{α : Type _} (f : α → Bool) (item : α) : Bool",
+			map[string]string{"item": "item"}, map[string]string{"iter.f": "f"}),
+		combExprSite(mod, st, "whileStream.Next", "stWhileStops", "if[4].cond", "(ok : Bool) : Bool", map[string]string{"ok": "ok"}, nil),
+		combExprSite(mod, it, "runsInnerIterator.Next", "itRunsInnerStops", "if[1].cond", "{α : Type _} (same : α → α → Bool) (prev item : α) (ok : Bool) : Bool",
+			map[string]string{"iter.prev": "prev", "item": "item", "ok": "ok"}, map[string]string{"iter.parent.same": "same"}),
+		combExprSite(mod, st, "runsInnerStream.Next", "stRunsInnerStops", "if[3].cond", "{α : Type _} (same : α → α → Bool) (prev item : α) : Bool",
+			map[string]string{"s.prev": "prev", "item": "item"}, map[string]string{"s.parent.same": "same"}),
+		combExprSite(mod, it, "One", "itOneEmpty", "if[0].cond", "(ok : Bool) : Bool", map[string]string{"ok": "ok"}, nil),
+		combExprSite(mod, it, "One", "itOneMore", "if[1].cond", "(ok : Bool) : Bool", map[string]string{"ok": "ok"}, nil),
+		combExprSite(mod, it, "Equal", "itEqualNone", "if[0].cond", "(len : Int) : Bool", map[string]string{"len(iters)": "len"}, nil),
+		combExprSite(mod, it, "Equal", "itEqualStart", "assign[i][0].rhs", ": Int", nil, nil),
+		combExprSite(mod, it, "Equal", "itEqualLoops", "for[1].cond", "(i len : Int) : Bool", map[string]string{"i": "i", "len(iters)": "len"}, nil),
+		combExprSite(mod, it, "Equal", "itEqualLenDiff", "if[1].cond", "(ok okI : Bool) : Bool", map[string]string{"ok": "ok", "iterIOk": "okI"}, nil),
+		combExprSite(mod, it, "Equal", "itEqualItemDiff", "if[2].cond", "{α : Type _} [DecidableEq α] (ok : Bool) (item itemI : α) : Bool",
+			map[string]string{"ok": "ok", "item": "item", "iterIItem": "itemI"}, nil),
+		combExprSite(mod, it, "Equal", "itEqualDone", "if[3].cond", "(ok : Bool) : Bool", map[string]string{"ok": "ok"}, nil),
+		combExprSite(mod, it, "joinIterator.Next", "itJoinLoops", "for[0].cond", "(len : Int) : Bool", map[string]string{"len(iter.iters)": "len"}, nil),
+		combExprSite(mod, st, "joinStream.Next", "stJoinLoops", "for[0].cond", "(len : Int) : Bool", map[string]string{"len(s.remaining)": "len"}, nil),
+		combExprSite(mod, st, "flattenSlicesStream.Next", "stFlattenSlicesHas", "if[0].cond", "(len : Int) : Bool", map[string]string{"len(s.buffer)": "len"}, nil),
+		combExprSite(mod, st, "flattenSlicesStream.Next", "stFlattenSlicesHead", "index[s.buffer][0].idx", ": Int", nil, nil),
+		Site{Module: mod, Pkg: st, Func: "flattenSlicesStream.Next", Name: "stFlattenSlicesRest", Kind: Custom, Custom: combSliceBound("s.buffer", 0, "lo")},
+		Site{Module: mod, Pkg: it, Func: "Last", Name: "itLastTake", Kind: Custom, Params: I("i", "n", "idx"), Vars: lastVars, Custom: combSliceBound("buf", 0, "hi")},
+		Site{Module: mod, Pkg: it, Func: "Last", Name: "itLastFrom", Kind: Custom, Params: I("i", "n", "idx"), Vars: lastVars, Custom: combSliceBound("buf", 1, "lo")},
+		Site{Module: mod, Pkg: it, Func: "Last", Name: "itLastUpto", Kind: Custom, Params: I("i", "n", "idx"), Vars: lastVars, Custom: combSliceBound("buf", 2, "hi")},
+		Site{Module: mod, Pkg: st, Func: "Last", Name: "stLastTake", Kind: Custom, Params: I("i", "n", "idx"), Vars: lastVars, Custom: combSliceBound("buf", 0, "hi")},
+		Site{Module: mod, Pkg: st, Func: "Last", Name: "stLastFrom", Kind: Custom, Params: I("i", "n", "idx"), Vars: lastVars, Custom: combSliceBound("buf", 1, "lo")},
+		Site{Module: mod, Pkg: st, Func: "Last", Name: "stLastUpto", Kind: Custom, Params: I("i", "n", "idx"), Vars: lastVars, Custom: combSliceBound("buf", 2, "hi")},
 
 		// ---------------------------------------------------------------- Close of the multi-stream combinators (C09-F2)
 		text(st, "joinStream.Close", "stJoinCloseRange", "range[0].x", "range operand"),
